@@ -35,7 +35,7 @@ def shards(tier, seed):
         n_sh, n, nmax, budget, ncuda = 14, 500, 200000, 560, 80
     out = [{"name": f"ana{i}", "threads": 2, "timeout": budget * 4 + 300,
             "params": {"seed": seed, "shard": i, "n": n, "nmax": nmax, "budget_s": budget,
-                       "backends": ["numba", "numpy"]}} for i in range(n_sh)]
+                       "backends": ["numba", "numpy", "auto"]}} for i in range(n_sh)]
     out.append({"name": "cudasim", "threads": 1, "timeout": budget * 4 + 300,
                 "env": {"NUMBA_ENABLE_CUDASIM": "1"},
                 "params": {"seed": seed, "shard": 100, "n": ncuda, "nmax": 1500,
@@ -114,6 +114,24 @@ def one_analysis(rec, seedt, params):
     tag = f"compute[{desc['backend']}]"
     api.check_result(res, data, desc, rec, tag, max_bins=60 if not cuda else 25, rng=rng)
     check_dispatch(rec, events, res, desc)
+
+    # ---- the one-call wrappers give the same estimate --------------------------------
+    if not cuda and rng.random() < 0.35:
+        import speckit
+        wname = str(rng.choice(["compute_spectrum", "lpsd"]))
+        try:
+            rw = getattr(speckit, wname)(data, desc["fs"], **api.analyzer_kwargs(desc))
+            rec.count("wrapper_calls")
+            same = rw.nf == res.nf and all(
+                np.array_equal(np.asarray(getattr(rw, k)), np.asarray(getattr(res, k)))
+                for k in ("f", "L", "K", "XX", "YY", "XY", "M2", "S2", "S12"))
+            if not same:
+                rec.violation("wrapper-differs", f"speckit.{wname}(data, fs, **options) differs "
+                                                 f"from SpectrumAnalyzer(data, fs, **options).compute()")
+        except ValueError as e:
+            rec.blocked(f"wrapper rejected: {str(e)[:60]}")
+        except Exception as e:
+            rec.violation("wrapper-raises", f"speckit.{wname}: {type(e).__name__}: {e}")
 
     # ---- band restriction ---------------------------------------------------
     if want_band and res.nf >= 3 and not cuda:
@@ -202,6 +220,19 @@ def one_analysis(rec, seedt, params):
                                                f"{type(e).__name__}: {e}")
             continue
         rec.count("single_bin_compared")
+        if not cuda and q == 0:
+            import speckit
+            try:
+                kwargs = {"L": Lreq} if by == "L" else {"fres": fres}
+                rw = speckit.compute_single_bin(data, desc["fs"], freq, **kwargs,
+                                                **api.analyzer_kwargs(desc))
+                rec.count("wrapper_calls")
+                if not all(np.array_equal(np.asarray(getattr(rw, k)), np.asarray(getattr(r1, k)))
+                           for k in ("f", "L", "K", "XX", "YY", "XY", "M2", "S2", "S12")):
+                    rec.violation("wrapper-differs", "speckit.compute_single_bin(...) differs from "
+                                                     "SpectrumAnalyzer(...).compute_single_bin(...)")
+            except Exception as e:
+                rec.violation("wrapper-raises", f"speckit.compute_single_bin: {type(e).__name__}: {e}")
         if r1.nf != 1 or int(r1.L[0]) != Lexp:
             rec.violation("single-bin:segment-length",
                           f"requested {by}->{Lexp}, result reports L={r1.L.tolist()} nf={r1.nf}")
@@ -229,7 +260,7 @@ def replay(case, rec):
     seedt = case["seed"]
     cuda = case.get("backend") == "cuda"
     params = {"nmax": 200000 if case.get("N", 0) > 12000 else 12000,
-              "backends": ["cuda"] if cuda else ["numba", "numpy"], "cuda": cuda}
+              "backends": ["cuda"] if cuda else ["numba", "numpy", "auto"], "cuda": cuda}
     # the generator is deterministic in (seed, nmax, backends): try both tiers' nmax
     for nmax in (12000, 200000, 1500):
         p = dict(params, nmax=nmax)
